@@ -222,7 +222,7 @@ func checkC07(p *Prog, r *Result, tier string) {
 		}
 	}
 	// R1 (b): ITER
-	checkValidateLoops(p, c, r, "C07.R1", effs(EHookT, ECanon, EOkValid, EOkUniqLive, EOkUniqTemp))
+	checkValidateLoops(p, c, r, "C07.R1", effs(EHookT, ECanon, EOkValid, EOkUniqLive, EOkAcceptTemp))
 	// R1 (c): structure of the loops over the variadic parameter
 	checkWholeSliceLoops(p, r, "C07.R1", many)
 
@@ -243,6 +243,17 @@ func checkC07(p *Prog, r *Result, tier string) {
 		return &effListener{p: p, r: r, root: j.root, val: j.val, onEvent: func(l *effListener, x *Explorer, st *State, ev *Event) {
 			a := l.p.A
 			switch ev.Kind {
+			case EvCall:
+				// constructor of an object index: a sod function without receiver returning *objIndex
+				if ev.Callee != nil && ev.Callee.Signature.Recv() == nil && ev.Callee.Signature.Results().Len() == 1 && named(ev.Callee.Signature.Results().At(0).Type()) == a.ObjIndex && st.onStack(l.p.FuncByName("DB.InsertOrUpdateMany")) {
+					args := ev.Instr.(ssa.CallInstruction).Common().Args
+					fn := FuncName(st.top().fn)
+					if len(args) > 0 && x.tagsOf(st, args[0])&TSchemaFields != 0 {
+						l.ok("C07.R4", fn, "scratch index built from the schema's descriptors", l.p.Pos(ev.Instr.Pos()))
+					} else {
+						l.bad("C07.R4", fn, "scratch index built from the schema's descriptors", "the per-batch scratch index is not built from Schema.Fields: constraints that exist only in the stored schema (custom schemas) are not enforced between the objects of a batch", l.p.Pos(ev.Instr.Pos()), x, st, ev.Instr)
+					}
+				}
 			case EvIdxContainerStore:
 				fn := FuncName(st.top().fn)
 				name := "?"
